@@ -497,7 +497,9 @@ class BackendZ3(Backend):
 
     @condom
     def StringV(self, ast):
-        return z3.StringVal(ast.args[0], ctx=self._context)
+        # Z3 interprets \\u{...} escape sequences in string literals: escape the backslash itself so that the
+        # constant reaches the solver as exactly the characters written
+        return z3.StringVal(ast.args[0].replace("\\", "\\u{5c}"), ctx=self._context)
 
     @condom
     def StringS(self, ast):
